@@ -118,6 +118,22 @@ Proof.
 Qed.
 Print Assumptions c05_recovers_truth.
 
+(** The same at the level of the property's statement: forces produced exactly by an ADMISSIBLE TENSOR phi0 (y = D phi0), E the
+    expansion onto the admissible space (C04), snapshots that determine the fit (X = D o E injective): every solution of the normal
+    equations expands to phi0. *)
+From SymfcV Require Admissible.
+Theorem c05_admissible_tensor_recovered (C F O : IPS) (E : C -> F) (D : F -> O) (Adm : F -> Prop) :
+  (forall c d, E (vadd c d) = vadd (E c) (E d)) -> (forall a c, E (vscale a c) = vscale a (E c)) ->
+  (forall p q, D (vadd p q) = vadd (D p) (D q)) -> (forall a p, D (vscale a p) = vscale a (D p)) ->
+  (forall phi, Adm phi <-> exists c, phi = E c) ->
+  (forall d, Admissible.Xd C F O E D d = vzero -> d = vzero) ->
+  forall phi0 c, Adm phi0 -> normal_eq C O (Admissible.Xd C F O E D) (D phi0) c -> E c = phi0.
+Proof.
+  intros Ea Es Da Ds Hs Hinj phi0 c Hadm Hn.
+  exact (Admissible.exact_data_recovered C F O E D Adm Ea Es Da Ds Hs (D phi0) Hinj phi0 c Hadm eq_refl Hn).
+Qed.
+Print Assumptions c05_admissible_tensor_recovered.
+
 (** The remaining source this property rests on is the recorded one (the six solver modules and solver_funcs): whole-function match,
     regenerated on every run (closes the gap between "the expected statements are present" and "nothing else was added"). *)
 From SymfcG Require Import ShapesSolvers.
